@@ -7,7 +7,6 @@ From J5V.model Require Import J5sAst Desc J5sWalk J5sLink J5sConvert J5sContract
 Import ListNotations.
 Local Open Scope N_scope.
 
-Definition valid (bd : bundle) : bool := valid_bundle to_snake to_camel bd.
 
 Definition sfield (n : string) : property := Property (b n) false false (FScalar SString).
 Definition foo_v1 : list str := [b "foo"; b "v1"].
@@ -59,6 +58,32 @@ Lemma append_keeps_existing :
                compile (apply_edits w_before w_edit) (b "foo.v1") = Ok D' /\
                first_field_tname D' = first_field_tname D /\
                first_field_tname D = abs_name (b "foo.v1") [b "Foo"; b "X"].
+Proof.
+  split; [vm_compute; reflexivity|]. split; [vm_compute; reflexivity|].
+  eexists. eexists. repeat split; vm_compute; reflexivity.
+Qed.
+
+(* C13, known finding: enum Status {} compiles to STATUS_UNSPECIFIED = 0; after appending the option
+   OLD_UNSPECIFIED - now the FIRST option, and a first option ending in UNSPECIFIED is taken as
+   the zero value - value 0 is called STATUS_OLD_UNSPECIFIED: a previously generated enum value
+   changed its name *)
+Definition w_empty_enum : bundle :=
+  [BJ (mkJfile foo_v1 (b "a") [] [EEnum (mkEnum (b "Status") [] [])])].
+Definition w_empty_enum_edit : list edit := [EAppendOption 0 0 (b "OLD_UNSPECIFIED")].
+
+Definition zero_value (D : list dfile) : option (str * N) :=
+  match D with
+  | f :: _ => match fl_enums f with e :: _ => hd_error (en_vals e) | [] => None end
+  | [] => None
+  end.
+
+Lemma append_to_empty_enum_renames_zero :
+  valid w_empty_enum = true /\ valid (apply_edits w_empty_enum w_empty_enum_edit) = true /\
+  exists D D', compile w_empty_enum (b "foo.v1") = Ok D /\
+               compile (apply_edits w_empty_enum w_empty_enum_edit) (b "foo.v1") = Ok D' /\
+               zero_value D = Some (b "STATUS_UNSPECIFIED", 0) /\
+               zero_value D' = Some (b "STATUS_OLD_UNSPECIFIED", 0) /\
+               files_ext_b D D' = false.
 Proof.
   split; [vm_compute; reflexivity|]. split; [vm_compute; reflexivity|].
   eexists. eexists. repeat split; vm_compute; reflexivity.
